@@ -48,6 +48,24 @@ def if_mentions_bound(tree):
     return walk(tree)
 
 
+def nested_if(tree):
+    """an `if` form that contains another `if` form."""
+    def has_if(t, top):
+        if t[0] != "list":
+            return False
+        if not top and t[1] and t[1][0] == ("sym", "if"):
+            return True
+        return any(has_if(x, False) for x in t[1])
+
+    def walk(t):
+        if t[0] != "list":
+            return False
+        if t[1] and t[1][0] == ("sym", "if") and has_if(t, True):
+            return True
+        return any(walk(x) for x in t[1])
+    return walk(tree)
+
+
 def gen_case(rng, dialect):
     feats = [f for f in ["functions", "inlines", "lets", "assign", "destructure", "lambda", "constants", "qq", "applydata"]
              if rng.random() < 0.7]
@@ -152,6 +170,8 @@ def run(chk):
                 sig = "unused:value-differs" if (res[j][0] == "V" and res[j + 1][0] == "V") else "unused:discarded-but-evaluated"
                 if sig == "unused:value-differs" and if_mentions_bound(c["tree"]):
                     sig = "unused:evaluator-com-leak"
+                elif sig == "unused:value-differs" and nested_if(c["tree"]):
+                    sig = "unused:nested-conditional-drops-names"
                 if "explicit-path" in c["features"] or "(@ " in c["text"] or " @)" in c["text"]:
                     sig = "unused:explicit-env-path"
                 chk.fail("oracle", sig, {"program": c["text"], "parameter": u, "args1": gen.hexv(pairs[j]),
